@@ -55,7 +55,7 @@ def run(ctx):
     cases, n = J.generate(ctx)
 
     rep = vlib.run_driver("drv_json", ["cases", "--cases", cases, "--out", ctx.path("cases")], env=ctx.env())
-    rep2 = vlib.run_driver("drv_json", ["random", "--n", 400 if q else 30000, "--out", ctx.path("random")], env=ctx.env())
+    rep2 = vlib.run_driver("drv_json", ["random", "--n", 400 if q else 10000, "--out", ctx.path("random")], env=ctx.env())
 
     def corrupt_key(e):          # the first key written in lower case / shifted
         m = e.get("shape", {}).get("m")
